@@ -310,5 +310,12 @@ func runC09(c *core.Ctx) {
 	importObligations(c, runC01, "R5", func(o *core.Obligation) bool {
 		return strings.Contains(o.Key, "sender-owns-flag") || strings.Contains(o.Key, "start-site")
 	})
-	importObligations(c, runC02, "R5", func(o *core.Obligation) bool { return strings.Contains(o.Key, "flag-access/") })
+	importObligations(c, runC02, "R5", func(o *core.Obligation) bool {
+		return strings.Contains(o.Key, "flag-access/") || o.Rule == "R8"
+	})
+	// a queued message is not overwritten by another writer's bytes: buffers handed to the queue are private
+	// and are not recycled while queued (C10), and codecs hand down no scratch shared between messages (C04)
+	c.Rule("R6", "a queued message's buffer is not reused for another message before it is written (shared with C10-R1/R4/R6 and C04-R3)", 2)
+	importObligations(c, runC10, "R6", func(o *core.Obligation) bool { return o.Rule == "R1" || o.Rule == "R4" || o.Rule == "R6" })
+	importObligations(c, runC04, "R6", func(o *core.Obligation) bool { return o.Rule == "R3" })
 }
